@@ -27,7 +27,7 @@ PROP = dict(
     lean_modules=["Octo.Props.C23"],
     required_theorems=["Octo.C23.reorder_correct", "Octo.C23.reader_batches", "Octo.C23.lines_split", "Octo.C23.lines_default",
                        "Octo.C23.stdin_replay", "Octo.C23.stdin_preview_prefix", "Octo.C23.json_record_faithful",
-                       "Octo.C23.json_record_iff_fits", "Octo.C23.csv_cell_faithful", "Octo.C23.lines_raw_refuted",
+                       "Octo.C23.json_record_iff_fits", "Octo.C23.json_run_rows", "Octo.C23.csv_cell_faithful", "Octo.C23.csv_run_rows", "Octo.C23.lines_raw_refuted",
                        "Octo.C23.json_raw_refuted", "Octo.C23.C23_full", "Octo.C23.C23_shipped_refuted"],
     nontrivial=_nontrivial,
     # jsonq prints the schedule the consumer observed (nondeterministic); the judge replays the Lean queue model on it
@@ -51,7 +51,8 @@ PROP = dict(
         "bufio.Scanner follows its documented contract (split function called on the unconsumed window, atEOF at the end); "
         "tokens are shorter than the scanner's maximal token size (64 KiB for lines, 1 MiB for JSON), otherwise an error is returned",
         "every line of the file parses (a parse error is returned as an error: reorder_parse_error)",
-        "JSON rows fit the inferred schema (otherwise an error is reported, C24); object keys are distinct within one object",
+        "JSON rows beyond the 100-row preview fit the inferred schema (otherwise an error is reported, C24; rows within the preview "
+        "always fit: Octo.C24.json_preview_no_error); object keys are distinct within one object",
         "parquet files (datasources/parquet/reconstruct.go) are NOT modelled and not exercised: no parquet writer is available offline",
         "tail mode (never terminates) is out of scope",
         "the OS returns at least one byte per read of a pipe unless at EOF",
